@@ -83,4 +83,11 @@ theorem forkable_handler_error (cfg : Forkable.Config) (s : Forkable.FState) (b 
     (Forkable.processBlock cfg s b (some k)).2.2 = .errHandler :=
   (Props.C01.handler_error_returned_at_once cfg s b k).1 h
 
+/-- **no crash branch**: for every state, block and failure point, `ProcessBlock` returns ok, the handler's error, or
+    rejects a block naming itself as parent; the branch in which the Go code would dereference a missing block of the
+    undo/redo segments is unreachable -/
+theorem forkable_never_takes_the_crash_branch (cfg : Forkable.Config) (s : Forkable.FState) (b : Blk) (f : Option Nat)
+    (h : (Forkable.processBlock cfg s b f).2.2 = .errInvalid) : b.id = b.parent :=
+  Forkable.invalid_only_for_self_parent cfg s b f h
+
 end BstreamVerif.Props.C11
